@@ -1,8 +1,7 @@
 """unit repchk — repetition, check paths (predefined_node/repetition.rs): try_check_unit, RepeatMin,
 RepeatMinMax, AtomicRepeat (TypedNode::try_check_partial_with and NeverFailedTypedNode::check_with).
 C19 (bounds, greedy, a skip before a failing iteration is given back), C07 (skip only between iterations),
-C05 (a failed iteration leaves no trace).  Parse paths (core::array::from_fn FnMut closures) are
-Kani-bounded stand-ins.  Termination of the unbounded loop is not claimed (partial correctness)."""
+C05 (a failed iteration leaves no trace).  Parse paths are unit reppar (rewrite R9).  Termination of the unbounded loop is not claimed (partial correctness)."""
 import re
 import _prelude as P
 
